@@ -32,7 +32,33 @@ func HarnessC12Rows() {
 	if err != nil {
 		return
 	}
-	q := drvQueries[verifChoice("query", len(drvQueries))]
+	qi := verifChoice("query", len(drvQueries)+2)
+	var q drvQuery
+	switch {
+	case qi < len(drvQueries):
+		q = drvQueries[qi]
+	default:
+		// a literal with symbolic contents (one arbitrary byte, in the thorough tier two): the
+		// solver decides which stored value, if any, it equals; a quote byte makes the text
+		// `a = """`-like, which is not a sentence
+		v := verifString("lit", 1+verifTier()*verifChoice("litlen", 2))
+		bad := false
+		for i := 0; i < len(v); i++ {
+			if v[i] == '"' {
+				bad = true
+			}
+		}
+		q = drvQuery{text: `a = "` + v + `"`, match: func(r drvRow) bool { return r["a"] == v }, wantErr: bad}
+		if qi == len(drvQueries)+1 {
+			q.text += " ; b"
+			q.groupBy = []string{"b"}
+		}
+		if bad && len(v) == 2 && v[0] == '"' && v[1] == '"' {
+			// `a = """"` is the one-quote value
+			q.wantErr = false
+			q.match = func(r drvRow) bool { return r["a"] == `"` }
+		}
+	}
 	r, err := c.QueryContext(drvCtx, q.text, nil)
 	if q.wantErr {
 		verifAssert(err != nil, "C12: a query the library rejects must be rejected with an error")
